@@ -787,11 +787,9 @@ theorem conc_weaken {s : St} {tid : Nat} {A : Abs} {mine : Nat → Bool} (hc : C
 
 /-- a String / Variant / Xml::Variant call (and Ptr::swap) on variables of a thread that owns all slots, is
     idle and has empty scratch slots is never rejected, and it re-establishes exactly that situation -/
-theorem apiStep_total {s : St} {tid : Nat} {op : ApiOp} {mine : Nat → Bool} (hc : Conc s tid (A0 tid mine))
-    (hn : nSlots ≤ s.n) (htid : tid < nThreads) (hf : flatOp op = true) (hi : idxOk op) (hmi : idxMine mine op)
-    (hmU : mine (tmpU tid) = true) (hmT : mine (tmpT tid) = true) :
+theorem apiStep_total_of_okMid {s : St} {tid : Nat} {op : ApiOp} {mine : Nat → Bool} (hc : Conc s tid (A0 tid mine))
+    (ok : okMid s.n tid op (absRun s.n (A0 tid mine) (pre s tid op))) :
     ∃ s', apiStep s tid op = some s' ∧ Conc s' tid (A0 tid mine) ∧ s'.n = s.n := by
-  have ok := flat_lists_ok s.n tid op mine hn htid hf hi hmi hmU hmT s
   cases hA : absRun s.n (A0 tid mine) (pre s tid op) with
   | none => rw [hA] at ok; exact absurd ok (by simp [okMid])
   | some A1 =>
@@ -836,6 +834,12 @@ theorem apiStep_total {s : St} {tid : Nat} {op : ApiOp} {mine : Nat → Bool} (h
           · exact h
           · simp [isWriting, h] at hw'
       refine fin { A1 with ph := .idle } hm1 ⟨hc1.inv, hc1.own, hc1.low, hidle, hc1.emp⟩ ((hpost s1).2 hw')
+
+theorem apiStep_total {s : St} {tid : Nat} {op : ApiOp} {mine : Nat → Bool} (hc : Conc s tid (A0 tid mine))
+    (hn : nSlots ≤ s.n) (htid : tid < nThreads) (hf : flatOp op = true) (hi : idxOk op) (hmi : idxMine mine op)
+    (hmU : mine (tmpU tid) = true) (hmT : mine (tmpT tid) = true) :
+    ∃ s', apiStep s tid op = some s' ∧ Conc s' tid (A0 tid mine) ∧ s'.n = s.n :=
+  apiStep_total_of_okMid hc (flat_lists_ok s.n tid op mine hn htid hf hi hmi hmU hmT s)
 
 theorem conc_init (n : Nat) : Conc (init n) 0 (A0 0 mineAll) := by
   refine ⟨inv_init n, fun _ _ => rfl, ?_, rfl, ?_⟩
